@@ -63,6 +63,14 @@ def check(ctx):
     ru = ctx.func(MP, "Mappings.resource_usage", R)
     for fi, what in ((en, "energy"), (ac, "actions")):
         acc = _accums(fi, "new_result")
+        own_gb = [c for c in fi.calls("groupby")]
+        if not acc and own_gb:
+            dn = kwarg(own_gb[0], "dropna")
+            keeps_none = isinstance(dn, ast.Constant) and dn.value is False
+            ctx.check(keeps_none, R, fi, own_gb[0], f"{what}() aggregates with pandas groupby without dropna=False: keys containing None (the tensor key of leak entries, which have no tensor) "
+                      f"are silently dropped, so per-tensor breakdowns no longer sum to the total", f"{what}: groupby(dropna=False)")
+            ctx.check(any(call_name(c) == "sum" for c in fi.calls()), R, fi, own_gb[0], f"{what}() groups without summing", f"{what}: groups are summed")
+            continue
         if not acc:
             # aggregation delegated to a helper: accepted forms are a keyed += loop or pandas groupby(...).sum() that keeps None/NaN keys
             helpers = [ctx.module(MP).funcs.get(call_name(c)) for c in fi.calls() if isinstance(c.func, ast.Name) and any(norm(a_) == "keep_indices" for a_ in c.args)]
@@ -147,6 +155,7 @@ def check(ctx):
         ctx.check(ok, R, en, loop.iter if isinstance(loop, ast.For) else leak[0], "leak columns are not taken from the two-part (component, action) keys of the Einsum", "leak = two-part keys with action 'leak'")
     ctx.floor(R, 6)
     _a3(ctx)
+    _a4(ctx)
 
 
 def _a3(ctx):
@@ -183,11 +192,51 @@ def _a3(ctx):
                       f"{name} {kind}: one factor n_instances")
 
 
+def _a4(ctx):
+    R = "C28-A4"
+    ctx.doc(R, "no value from a previous iteration: in the loops that scale / gather per-action counts, a local assigned inside the loop body is assigned on every path of the iteration before it is read")
+    EN = "accelforge/model/_looptree/energy.py"
+    n = 0
+    for q in ("_apply_actions_scale", "gather_actions", "compute_energy_from_actions"):
+        fi = ctx.func(EN, q, R)
+        cfg = ctx.cfg(fi)
+        for loop in [nd for nd in cfg.nodes if nd.kind == "for"]:
+            body = loop.ast.body
+            assigned = {}
+            for st in body:
+                for x in ast.walk(st):
+                    if isinstance(x, ast.Name) and isinstance(x.ctx, ast.Store):
+                        sn = cfg.stmt_node_containing(x)
+                        if sn is not None:
+                            assigned.setdefault(x.id, set()).add(sn)
+            tnames = {x.id for x in ast.walk(loop.ast.target) if isinstance(x, ast.Name)}
+            before = {x.id for nd in cfg.nodes if nd.ast is not None and cfg.dominates(nd, loop) and nd is not loop for x in ast.walk(nd.ast) if isinstance(x, ast.Name) and isinstance(x.ctx, ast.Store) and nd.kind == "stmt"}
+            for st in body:
+                for x in ast.walk(st):
+                    if not (isinstance(x, ast.Name) and isinstance(x.ctx, ast.Load) and x.id in assigned and x.id not in tnames and x.id not in before and x.id not in fi.params()):
+                        continue
+                    un = cfg.stmt_node_containing(x)
+                    if un is None or un in assigned[x.id] and isinstance(un.ast, ast.AugAssign):
+                        continue
+                    if un in assigned[x.id] and not isinstance(un.ast, (ast.For, ast.While)):
+                        # `x = f(x)`: the read precedes the write of the same statement
+                        others = assigned[x.id] - {un}
+                    else:
+                        others = assigned[x.id]
+                    n += 1
+                    ok = cfg.every_path_passes(loop, un, set(others)) if others else False
+                    ctx.check(ok, R, fi, un.ast, f"`{x.id}` is read here but assigned only on some paths of the iteration (e.g. only on a cache miss): on the other paths the value left by the previous iteration is used, "
+                              "so a count is scaled / attributed with another component's factor and the breakdown no longer agrees with the totals", f"`{x.id}` assigned on every path of the iteration before this read")
+    ctx.require(n >= 3, R, f"loop-local reads examined: {n}")
+    ctx.floor(R, 3)
+
+
 def check_a3_wrapper(ctx):
     _a3(ctx)
 
 
 VARIANTS = [
+    {"kind": "F", "name": "scale-read-only-on-cache-miss", "rule": "C28-A4", "edits": [("accelforge/model/_looptree/energy.py", "            components[key.level] = spec.arch.find(key.level)\n        scale = getattr(components[key.level], \"actions_scale\", 1)", "            components[key.level] = spec.arch.find(key.level)\n            scale = getattr(components[key.level], \"actions_scale\", 1)")]},
     {"kind": "F", "name": "latency-component-axis-sum", "rule": "C28-A1", "edits": [(MP, "                    new_result[einsum] = np.maximum(new_result[einsum], value)", "                    new_result[einsum] = new_result[einsum] + value")]},
     {"kind": "F", "name": "energy-max", "rule": "C28-A1", "edits": [(MP, """        new_result = defaultdict(float)
         for key, value in result.items():
